@@ -19,7 +19,19 @@ import (
 func (s *Sim) serving() []*nodeState {
 	var out []*nodeState
 	for _, ns := range s.nodes {
+		if ns.member && ns.removed && s.isLive(ns) && s.stillMember(ns.id) {
+			// its `rconf delete` never took effect (dropped by raft like any
+			// configuration change proposed while another one is unapplied)
+			out = append(out, ns)
+			continue
+		}
 		if ns.member && !ns.removed {
+			if ns.id > s.k.Nodes && !s.admitted(ns.id) {
+				// its `rconf add` was answered but never took effect (raft drops a
+				// configuration change proposed while another one is still
+				// unapplied): nobody knows this node, it cannot be expected to serve
+				continue
+			}
 			out = append(out, ns)
 		}
 	}
@@ -299,7 +311,17 @@ func (s *Sim) runFinale() {
 		}
 		return
 	}
+	s.res.Voters = map[int][]uint64{}
 	for _, ns := range s.serving() {
+		if rn := ns.inc.vn.RaftNode(); rn != nil && rn.Node != nil {
+			st := rn.Node.Status()
+			var vs []uint64
+			for v := range st.Config.Voters.IDs() {
+				vs = append(vs, v)
+			}
+			sort.Slice(vs, func(i, j int) bool { return vs[i] < vs[j] })
+			s.res.Voters[ns.id] = vs
+		}
 		s.res.FinalDumps[ns.id] = dumpAll(ns.inc.vn.Manager())
 		s.res.FinalIdx[ns.id] = ns.view.applied
 		s.trace("final n%d applied=%d dump=%016x", ns.id, ns.view.applied, hashLines(s.res.FinalDumps[ns.id]))
@@ -421,4 +443,30 @@ func (s *Sim) ask(c *clientState, args []B, node int, idx int, final, probe bool
 		}
 		s.probe("finale-retry")
 	}
+}
+
+// admitted: some configured node counts id among the voting members.
+func (s *Sim) admitted(id int) bool {
+	for _, ns := range s.nodes {
+		if ns.id <= s.k.Nodes && ns.view.ok {
+			if _, ok := ns.view.voters[uint64(id)]; ok {
+				return true
+			}
+		}
+	}
+	return false
+}
+
+// stillMember: every node that can be asked counts id among the voting members.
+func (s *Sim) stillMember(id int) bool {
+	n := 0
+	for _, ns := range s.nodes {
+		if ns.view.ok {
+			if _, ok := ns.view.voters[uint64(id)]; !ok {
+				return false
+			}
+			n++
+		}
+	}
+	return n > 0
 }
